@@ -203,7 +203,7 @@ pub fn gen_value_of(t: &mut Tape, ty: &RType, s: &RSchema, depth: usize) -> V {
             _ => t.i64_edgy(),
         }),
         RType::Ext("ipaddr") => {
-            let pool = ["127.0.0.1", "10.0.0.0/8", "10.1.2.3", "0.0.0.0/0", "::1", "ff00::/8", "224.0.0.1", "192.168.0.0/16"];
+            let pool = ["127.0.0.1", "10.0.0.0/8", "10.1.2.3", "0.0.0.0/0", "::1", "ff00::/8", "224.0.0.1", "192.168.0.0/16", "::ffff:a00:1", "::a00:1/120"];
             V::Ip(ext::parse_ip(pool[t.upto(pool.len())]).unwrap())
         }
         RType::Ext("datetime") => V::Datetime(match t.upto(3) {
